@@ -36,12 +36,15 @@ def decDigits : Nat → List Char → Option Nat
     | some d => decDigits (acc * 10 + d) cs
     | none => none
 
+/-- an optional leading `+` is accepted by `str::parse` for unsigned integers -/
+def stripPlus : List Char → List Char
+  | '+' :: r => r
+  | r => r
+
 /-- `str::parse::<uN>()` with `limit = 2^N`: optional leading `+`, at least one digit, ASCII digits
     only, no overflow -/
 def parseUnsigned (limit : Nat) (s : List Char) : Option Nat :=
-  let body := match s with
-    | '+' :: r => r
-    | r => r
+  let body := stripPlus s
   if body.isEmpty then none
   else match decDigits 0 body with
     | some v => if v < limit then some v else none
